@@ -101,9 +101,9 @@ ni_conf!(aes192_ni_enc, aes192_ni_dec, crate::Aes192, 24);
 //@ harness name=aes256_ni_dec prop=C02,C03 tier=quick bits=384 stub=1 variants=aes:ni est=240 desc="W: Aes256 decrypt (AES-NI arm) == FIPS-197 EqInvCipher; all keys and blocks"
 ni_conf!(aes256_ni_enc, aes256_ni_dec, crate::Aes256, 32);
 
-//@ harness name=aes128enc_ni prop=C02,C12 tier=quick bits=256 stub=1 variants=aes:ni est=95 desc="W: Aes128Enc::new(key).encrypt_block == FIPS-197 Cipher (encrypt-only type, own constructor), AES-NI arm"
+//@ harness name=aes128enc_ni prop=C02,C12 tier=quick bits=256 stub=1 variants=aes:ni est=95 quick=C12 desc="W: Aes128Enc::new(key).encrypt_block == FIPS-197 Cipher (encrypt-only type, own constructor), AES-NI arm"
 ni_conf_enc_only!(aes128enc_ni, crate::Aes128Enc, 16);
-//@ harness name=aes128dec_ni prop=C02,C12 tier=quick bits=256 stub=1 variants=aes:ni est=130 desc="W: Aes128Dec::new(key).decrypt_block == FIPS-197 EqInvCipher (decrypt-only type, own constructor), AES-NI arm"
+//@ harness name=aes128dec_ni prop=C02,C12 tier=quick bits=256 stub=1 variants=aes:ni est=130 quick=C12 desc="W: Aes128Dec::new(key).decrypt_block == FIPS-197 EqInvCipher (decrypt-only type, own constructor), AES-NI arm"
 ni_conf_dec_only!(aes128dec_ni, crate::Aes128Dec, 16);
 //@ harness name=aes192enc_ni prop=C02,C12 tier=thorough bits=320 stub=1 est=300 variants=aes:ni desc="W: Aes192Enc encrypt == FIPS-197, AES-NI arm"
 ni_conf_enc_only!(aes192enc_ni, crate::Aes192Enc, 24);
